@@ -22,6 +22,8 @@ for a in sys.argv[1:]:
     if a.startswith("--dir="): sdir = a.split("=")[1]     # e.g. --dir=benign (behaviour-preserving refactors: nothing may be flagged)
 muts = args or sorted(os.path.basename(os.path.dirname(d)) for d in glob.glob(os.path.join(V, sdir, "*", "patch.diff")))
 resf = os.path.join(V, sdir, "RESULTS.json")
+for a in sys.argv[1:]:
+    if a.startswith("--results="): resf = a.split("=", 1)[1]     # separate file when two runs are in progress
 results = json.load(open(resf)) if os.path.exists(resf) else {}
 
 # snapshot of the machinery (spec, lib, bin, harness sources) so that edits made to /verif while a long
